@@ -180,6 +180,20 @@ func (vt *Model) StartWithSize(cmd *exec.Cmd, width int, height int) error {
 					return
 				default:
 					vt.update(seq)
+					// Deliver what this sequence raised before
+					// parsing on. Events are queued on a channel
+					// with room for two which only this goroutine
+					// drains: a third BEL in a row blocked it in
+					// postEvent forever
+				drain:
+					for {
+						select {
+						case ev := <-vt.events:
+							vt.eventHandler(ev)
+						default:
+							break drain
+						}
+					}
 				}
 			case ev := <-vt.events:
 				vt.eventHandler(ev)
